@@ -555,7 +555,10 @@ func (fr *Frame) evalBin(e *CExpr, env *Env, hint *Sort) *GVal {
 		if f, ok := m[op]; ok {
 			return tv(App(f, SBool, a, b))
 		}
-		am := map[string]string{"+": "fp.add", "-": "fp.sub", "*": "fp.mul", "/": "fp.div"}
+		if op == "/" {
+			return tv(App("f64.div", SF64, a, b))
+		}
+		am := map[string]string{"+": "fp.add", "-": "fp.sub", "*": "fp.mul"}
 		if f, ok := am[op]; ok {
 			return tv(App(f, SF64, mk("RNE", mkSort("RoundingMode")), a, b))
 		}
